@@ -86,18 +86,18 @@ C12 = [
     ("sha3_512_terminator", T + "hash.c", 'KSI_HASHALG_SHA3_512_names[] = { "SHA3-512", ""};', 'KSI_HASHALG_SHA3_512_names[] = { "SHA3-512"};', "algname.l1,algname.l3", "the fixed defect F8 re-introduced"),
     ("algname_alloc", T + "hash.c", "	upperName = KSI_calloc(strlen(name) + 1, 1);", "	upperName = KSI_calloc(strlen(name), 1);", "algname.l1,algname.l4", "upper-case copy one byte short"),
     ("vsnprintf_clamp", T + "compatibility.c", "	if (ret >= n) {\n		ret = n - 1;", "	if (ret > n) {\n		ret = n - 1;", "fmt_snprintf.n3,tostr_tlv.n0_b7", "KSI_vsnprintf clamps only results above n (returns n when the output exactly fills the buffer)"),
-    ("vsnprintf_negative", T + "compatibility.c", "	size_t ret = 0;\n	if (buf == NULL || n > INT_MAX || n == 0 || format == NULL) goto cleanup;\n	ret = vsnprintf(buf, n, format, va);", "	long ret = 0;\n	if (buf == NULL || n > INT_MAX || n == 0 || format == NULL) goto cleanup;\n	ret = vsnprintf(buf, n, format, va);", "fmt_snprintf.n3,tostr_datahash.b5", "negative vsnprintf result no longer mapped to n-1 (signed comparison)"),
+    ("vsnprintf_negative", T + "compatibility.c", "	if (ret >= n) {\n		ret = n - 1;", "	if ((long)ret >= (long)n) {\n		ret = n - 1;", "fmt_snprintf.n3,tostr_datahash.b5", "negative vsnprintf result no longer mapped to n-1 (signed comparison)"),
     ("strncpy_off_by_one", T + "compatibility.c", "	ret = strncpy(destination, source, n - 1);\n	destination[n - 1] = 0;", "	ret = strncpy(destination, source, n);\n	destination[n] = 0;", "fmt_strncpy.n4_s6,fmt_strncpy.n2_s1", "KSI_strncpy terminates one byte past the buffer"),
     ("ring_modulo", "src/ksi/base.c", "	ctxErr = &ctx->errors[ctx->errors_count % ctx->errors_size];", "	ctxErr = &ctx->errors[ctx->errors_count];", "errpush.r2_s0_p3,errpush.r16_s15_p2", "error ring index without modulo"),
     ("ring_dump_index", "src/ksi/base.c", "		err = ctx->errors + ((ctx->errors_count - i - 1) % ctx->errors_size);\n		nextWrite = printer(", "		err = ctx->errors + ((ctx->errors_count - i) % (ctx->errors_size + 1));\n		nextWrite = printer(", "errpush.r2_s0_p3,errpush.r16_s15_p2", "ring dump reads entry [size] (one past the ring)"),
     ("printer_advance", "src/ksi/base.c", "	*count += c;\n	return (char*)toStream + c;", "	*count += c;\n	return (char*)toStream + c + 1;", "errpush.r16_s0_p2", "error dump advances the write pointer one byte too far per line"),
     ("stringify_size", T + "tlv.c", '			l += KSI_snprintf(str + l, NOTNEGSUB(size, l), "%02x", tlv->datap[i]);', '			l += KSI_snprintf(str + l, size, "%02x", tlv->datap[i]);', "tostr_tlv.n0_b7,tostr_tlv.n1_b7", "stringify passes the whole buffer size instead of the remaining size"),
-    ("stringify_full_check", T + "tlv.c", "	if (*len >= size) {\n		res = KSI_OK; /* Buffer is full, but do not break the flow. */", "	if (*len > size) {\n		res = KSI_OK; /* Buffer is full, but do not break the flow. */", "tostr_tlv.n0_b0,tostr_tlv.n1_b1", "stringify's buffer-full test off by one"),
+    ("stringify_plus_one", T + "tlv.c", '	l += KSI_snprintf(str + l, NOTNEGSUB(size, l), " %c", tlv->isNonCritical ? \'L\' : \'-\');', '	l += KSI_snprintf(str + l, (NOTNEGSUB(size, l)) + 1, " %c", tlv->isNonCritical ? \'L\' : \'-\');', "tostr_tlv.n0_b7,tostr_tlv.n1_b1", "stringify passes remaining size + 1 for one field"),
     ("datahash_size", T + "hash.c", '		len += KSI_snprintf(buf + len, buf_len - len, "%02x", hsh->imprint[i]);', '		len += KSI_snprintf(buf + len, buf_len, "%02x", hsh->imprint[i]);', "tostr_datahash.b5,tostr_datahash.b43", "DataHash_toString passes the whole buffer size instead of the remaining size"),
     ("octet_size", T + "types_base.c", '			written += KSI_snprintf(buf + written, buf_len - written, "%02x", raw[i]);', '			written += KSI_snprintf(buf + written, buf_len, "%02x", raw[i]);', "tostr_octet.o3_b2,tostr_octet.o1_b3", "OctetString_toString passes the whole buffer size instead of the remaining size"),
     ("track_size", T + "tlv_template.c", '		if (i != 0) len += KSI_snprintf(buf + len, buf_len - len, "->");', '		if (i != 0) len += KSI_snprintf(buf + len, buf_len, "->");', "tostr_track.b9,tostr_track.b2", "track_str passes the whole buffer size instead of the remaining size"),
     ("base32_alloc", T + "base32.c", "	tmp = KSI_calloc(base32_len * 5 / 8 + 2, 1);", "	tmp = KSI_calloc(base32_len * 5 / 8, 1);", "base32_decode.l1,base32_decode.l5", "decode buffer two bytes short"),
-    ("base32_second_byte", T + "base32.c", "		buf_idx++;\n		selected_bits = bits & ((makeMask(bits_to_second_byte)", "		buf_idx += 2;\n		selected_bits = bits & ((makeMask(bits_to_second_byte)", "base32_decode.l2,base32_decode.l5", "spill-over bits written one byte too far"),
+    ("base32_second_byte", T + "base32.c", "		buf_idx++;\n		selected_bits = bits & ((makeMask(bits_to_second_byte)", "		buf_idx += 2;\n		selected_bits = bits & ((makeMask(bits_to_second_byte)", "base32_decode.l2,base32_decode.l5", "spill-over bits written one byte further (stays inside the +2 slack of the decode buffer: a functional change - C17 - not a memory-safety one; expected MISSED)"),
     ("uri_terminator", T + "net.c", "	tmp[new_len - 1] = '\\0';", "	tmp[new_len] = '\\0';", "uri_split.l3,uri_split.l5", "URI component copy terminated one byte too far"),
     ("uri_alloc", T + "net.c", "	tmp = KSI_malloc(strlen(val) + 1);", "	tmp = KSI_malloc(strlen(val));", "uri_split.l1,uri_split.l5", "URI component buffer one byte short"),
     ("empty_imprint_guard", T + "hash.c", "	if (imprint == NULL || imprint_length == 0) {", "	if (imprint == NULL) {", "endleaf.l0", "the fixed defect F6 re-introduced"),
